@@ -24,7 +24,89 @@ const (
 	fStepGtRange = "C18-range-function-step-greater-than-range"
 	fByName      = "C18-by-name-label-dropped"
 	fResetsZero  = "C18-resets-empty-window-zero"
+	fAbsentOff   = "C18-absent-over-time-offset-range-query"
+	fAbsentNeg   = "C18-absent-negative-matcher-on-absent-label"
 )
+
+const nosuchMetric = "c18_metric_without_samples"
+
+// absentOffset: the largest offset (ms) of a selector below absent_over_time / absent, 0 if none
+func absentOffset(expr string) int64 {
+	e, err := parser.ParseExpr(expr)
+	if err != nil {
+		return 0
+	}
+	var mx int64
+	parser.Inspect(e, func(n parser.Node, path []parser.Node) error {
+		vs, ok := n.(*parser.VectorSelector)
+		if !ok || vs.OriginalOffset <= 0 {
+			return nil
+		}
+		for _, p := range path {
+			if c, isCall := p.(*parser.Call); isCall && (c.Func.Name == "absent_over_time" || c.Func.Name == "absent") {
+				if o := vs.OriginalOffset.Milliseconds(); o > mx {
+					mx = o
+				}
+			}
+		}
+		return nil
+	})
+	return mx
+}
+
+// absentNegRewrite: if a selector below absent_over_time / absent has a negative matcher (!=, !~) with a non-empty
+// value on a label that no series of its metric carries (Prometheus: the matcher holds for every series), return the
+// expression with that selector's metric replaced by a metric without samples - today's code answers as if the
+// selector matched nothing.
+func absentNegRewrite(expr string, ds *dataset) (string, bool) {
+	e, err := parser.ParseExpr(expr)
+	if err != nil {
+		return "", false
+	}
+	hit := false
+	parser.Inspect(e, func(n parser.Node, path []parser.Node) error {
+		vs, ok := n.(*parser.VectorSelector)
+		if !ok {
+			return nil
+		}
+		under := false
+		for _, p := range path {
+			if c, isCall := p.(*parser.Call); isCall && (c.Func.Name == "absent_over_time" || c.Func.Name == "absent") {
+				under = true
+			}
+		}
+		if !under {
+			return nil
+		}
+		sers := seriesOf(ds, vs)
+		neg := false
+		for _, m := range vs.LabelMatchers {
+			if m.Name == "__name__" || m.Value == "" || !(m.Type == labels.MatchNotEqual || m.Type == labels.MatchNotRegexp) || !m.Matches("") {
+				continue
+			}
+			carried := false
+			for _, ls := range sers {
+				if _, has := ls[m.Name]; has {
+					carried = true
+				}
+			}
+			if !carried {
+				neg = true
+			}
+		}
+		if neg {
+			hit = true
+			vs.Name = nosuchMetric
+			for _, m := range vs.LabelMatchers {
+				if m.Name == "__name__" {
+					*m = *labels.MustNewMatcher(labels.MatchEqual, "__name__", nosuchMetric)
+				}
+			}
+		}
+		return nil
+	})
+	return e.String(), hit
+}
 
 type explain struct {
 	Rewritten string   `json:"rewritten,omitempty"`
@@ -306,6 +388,19 @@ func explainWith(ds *dataset, e *exprCase, mode string, start, lastStep, step in
 		// whole class (bogus points with tiny timestamps, missing points, duplicate-labelset error): see findings.json
 		ex.Rules = []string{fStepGtRange}
 		return true, ex, nregex
+	}
+	if mode == "range" && absentOffset(e.Expr) > 0 {
+		// whole class: the absent operator enumerates the steps of [start-offset, end-offset] (see findings.json)
+		ex.Rules = []string{fAbsentOff}
+		return true, ex, nregex
+	}
+	if rw, hit := absentNegRewrite(e.Expr, ds); hit && sv.Err == "" {
+		// constructive: the server answers exactly as upstream does when the selector matches nothing
+		if up := evalUp(rw); up.Err == "" && cmpResults(up, sv) == "" {
+			ex.Rewritten = rw
+			ex.Rules = []string{fAbsentNeg}
+			return true, ex, nregex
+		}
 	}
 	if sv.Err != "" {
 		return false, nil, nregex
